@@ -60,6 +60,16 @@ pub struct SynCase {
     /// 0 = the column count given by `wide`; 1 = 48 columns, 2 = 64 columns (generic and SSE2 backends only)
     #[serde(default)]
     pub wider: u8,
+    /// f32 only: every finite cell (and the threshold) is replaced by a subnormal number of the same sign and
+    /// the same order (bit pattern = 4|x| rounded down, at most 2^20): values a comparison that flushes
+    /// subnormals to zero cannot tell from 0
+    #[serde(default)]
+    pub tiny: bool,
+    /// what this thread did just before: 0 nothing; 1 / 2 / 4 scored a sequence SHORTER than the motif (no valid
+    /// position) through the AVX2 pipeline / the dispatcher on its AVX2 arm / the AVX2 protein pipeline; 3 scored
+    /// an empty row range; 5 scored a short sequence through SSE2; 6 scored an ordinary sequence through AVX2
+    #[serde(default)]
+    pub before: u8,
 }
 
 fn expand_cells(c: &Cells, cols: usize) -> Vec<Vec<f32>> {
@@ -143,8 +153,18 @@ fn syn_strategy(tier: Tier) -> BoxedStrategy<SynCase> {
     ];
     let prior = prop_oneof![2 => Just(0usize), 1 => 1usize..=3, 1 => 1usize..=80];
     let short = prop_oneof![2 => Just(0usize), 2 => 1usize..=40, 1 => 0usize..=3000];
-    (prop_oneof![Just(Dtype::F32), Just(Dtype::U8)], prop_oneof![3 => Just(true), 1 => Just(false)], cells, thr, prior, short, prop_oneof![10 => Just(0u8), 1 => Just(1u8), 1 => Just(2u8)])
-        .prop_map(|(dtype, wide, cells, thr, prior_rows, short_by, wider)| SynCase { dtype, wide, cells, thr, prior_rows, short_by, wider })
+    (
+        prop_oneof![Just(Dtype::F32), Just(Dtype::U8)],
+        prop_oneof![3 => Just(true), 1 => Just(false)],
+        cells,
+        thr,
+        prior,
+        short,
+        prop_oneof![10 => Just(0u8), 1 => Just(1u8), 1 => Just(2u8)],
+        prop_oneof![4 => Just(false), 1 => Just(true)],
+        prop_oneof![3 => Just(0u8), 2 => 1u8..=6],
+    )
+        .prop_map(|(dtype, wide, cells, thr, prior_rows, short_by, wider, tiny, before)| SynCase { dtype, wide, cells, thr, prior_rows, short_by, wider, tiny, before })
         .boxed()
 }
 
@@ -226,8 +246,83 @@ fn pick_threshold(thr: &Thr, cells: &[Vec<f32>], cols: usize) -> f32 {
     }
 }
 
+/// Order of the element type as an integer key, computed from the bit pattern: the reference must not depend on
+/// how the floating-point unit of this thread is configured at the time (a `>=` on f32 does). No NaN here;
+/// -0.0 and +0.0 share a key.
+pub trait OrdKey: Copy {
+    fn key(self) -> i64;
+}
+impl OrdKey for u8 {
+    fn key(self) -> i64 {
+        self as i64
+    }
+}
+impl OrdKey for f32 {
+    fn key(self) -> i64 {
+        let b = self.to_bits();
+        let mag = (b & 0x7fff_ffff) as i64;
+        if b >> 31 == 1 {
+            -mag
+        } else {
+            mag
+        }
+    }
+}
+
+/// The subnormal stand-in of a cell value (see `SynCase::tiny`).
+fn tiny_of(x: f32) -> f32 {
+    if !x.is_finite() {
+        return x;
+    }
+    let sign = x.to_bits() & 0x8000_0000;
+    let mag = ((x.abs() as f64) * 4.0).min(1048576.0) as u32;
+    f32::from_bits(sign | mag)
+}
+
+/// What the thread did just before the matrix is examined (see `SynCase::before`).
+fn do_before(kind: u8) {
+    if kind == 0 {
+        return;
+    }
+    let rows = vec![vec![Fl(1.0), Fl(-1.0), Fl(0.5), Fl(-2.0), Fl(f32::NEG_INFINITY)]; 4];
+    let pssm = build_pssm::<Dna>(&MatSpec { rows, bg: BgSpec::Uniform, regime: "before".into() });
+    let stripe = |idx: &[u8]| {
+        let mut s: StripedSequence<Dna, U32> = Pipeline::<Dna, _>::generic().stripe(&syms::<Dna>(idx));
+        s.configure(&pssm);
+        s
+    };
+    let short = stripe(&[0, 1, 2]);
+    let long = stripe(&(0..100u8).map(|i| i % 4).collect::<Vec<u8>>());
+    match kind {
+        1 => {
+            let _ = Pipeline::<Dna, _>::avx2().unwrap().score(&pssm, &short);
+        }
+        2 => {
+            let _g = Arm::Avx2.force();
+            let _ = pssm.score(&short);
+        }
+        3 => {
+            let mut out = StripedScores::<f32, U32>::empty();
+            Pipeline::<Dna, _>::avx2().unwrap().score_rows_into(&pssm, &long, 0..0, &mut out);
+        }
+        4 => {
+            let prows = vec![(0..21).map(|j| Fl(j as f32 * 0.25 - 2.0)).collect::<Vec<Fl>>(); 5];
+            let ppssm = build_pssm::<Protein>(&MatSpec { rows: prows, bg: BgSpec::Uniform, regime: "before".into() });
+            let mut s: StripedSequence<Protein, U32> = Pipeline::<Protein, _>::generic().stripe(&syms::<Protein>(&[3, 7]));
+            s.configure(&ppssm);
+            let _ = Pipeline::<Protein, _>::avx2().unwrap().score(&ppssm, &s);
+        }
+        5 => {
+            let _ = Pipeline::<Dna, _>::sse2().unwrap().score(&pssm, &short);
+        }
+        _ => {
+            let _ = Pipeline::<Dna, _>::avx2().unwrap().score(&pssm, &long);
+        }
+    }
+}
+
 /// Compare one backend's answers with a scan of all cells.
-fn judge<T: MatrixElement + PartialOrd + std::fmt::Debug>(
+fn judge<T: MatrixElement + PartialOrd + std::fmt::Debug + OrdKey>(
     cells: &[Vec<T>],
     cols: usize,
     t: T,
@@ -244,14 +339,14 @@ fn judge<T: MatrixElement + PartialOrd + std::fmt::Debug>(
     let mut best = cells[0][0];
     for r in cells {
         for &x in &r[..cols] {
-            if x > best {
+            if x.key() > best.key() {
                 best = x;
             }
         }
     }
     info.comparisons += 3;
     match rep.max {
-        Some(m) if m == best => {}
+        Some(m) if m.key() == best.key() => {}
         other => {
             return Some(Failure::new(
                 format!("{}:max", rep.name),
@@ -260,7 +355,7 @@ fn judge<T: MatrixElement + PartialOrd + std::fmt::Debug>(
         }
     }
     match rep.argmax {
-        Some(mc) if mc.row < rows && mc.col < cols && cells[mc.row][mc.col] == best => {}
+        Some(mc) if mc.row < rows && mc.col < cols && cells[mc.row][mc.col].key() == best.key() => {}
         other => {
             let held = other.filter(|mc| mc.row < rows && mc.col < cols).map(|mc| cells[mc.row][mc.col]);
             return Some(Failure::new(
@@ -272,7 +367,7 @@ fn judge<T: MatrixElement + PartialOrd + std::fmt::Debug>(
     let mut expect: Vec<(usize, usize)> = Vec::new();
     for (i, r) in cells.iter().enumerate() {
         for (j, &x) in r[..cols].iter().enumerate() {
-            if x >= t {
+            if x.key() >= t.key() {
                 expect.push((i, j));
             }
         }
@@ -289,7 +384,7 @@ fn judge<T: MatrixElement + PartialOrd + std::fmt::Debug>(
     None
 }
 
-fn judge_offsets<T: MatrixElement + PartialOrd + std::fmt::Debug>(
+fn judge_offsets<T: MatrixElement + PartialOrd + std::fmt::Debug + OrdKey>(
     name: &'static str,
     cells: &[Vec<T>],
     cols: usize,
@@ -315,7 +410,7 @@ fn judge_offsets<T: MatrixElement + PartialOrd + std::fmt::Debug>(
 
 fn run_syn<T, C>(cells: &[Vec<T>], t: T, wide_backends: bool, prior: Option<(usize, T)>, short_by: usize, info: &mut CaseInfo) -> Option<Failure>
 where
-    T: MatrixElement + PartialOrd + std::fmt::Debug,
+    T: MatrixElement + PartialOrd + std::fmt::Debug + OrdKey,
     C: PositiveLength,
     Pipeline<Dna, lightmotif::pli::platform::Generic>: Maximum<T, C> + Threshold<T, C>,
     Pipeline<Dna, lightmotif::pli::platform::Sse2>: Maximum<T, C> + Threshold<T, C>,
@@ -339,7 +434,7 @@ where
 
 fn run_syn_wide<T>(cells: &[Vec<T>], t: T, prior: Option<(usize, T)>, short_by: usize, info: &mut CaseInfo) -> Option<Failure>
 where
-    T: MatrixElement + PartialOrd + std::fmt::Debug,
+    T: MatrixElement + PartialOrd + std::fmt::Debug + OrdKey,
     Pipeline<Dna, lightmotif::pli::platform::Generic>: Maximum<T, U32> + Threshold<T, U32>,
     Pipeline<Dna, lightmotif::pli::platform::Sse2>: Maximum<T, U32> + Threshold<T, U32>,
     Pipeline<Protein, lightmotif::pli::platform::Sse2>: Maximum<T, U32> + Threshold<T, U32>,
@@ -387,7 +482,7 @@ impl Sub for Synthetic {
         "synthetic"
     }
     fn rule(&self) -> &'static str {
-        "StripedScores<f32|u8> with 16 or 32 (and, 1 case in 6, 48 or 64) columns built cell by cell, half of them in a buffer that first held 1..80 more rows of the largest value and was resized down, and three in five with a max_index smaller than rows x C (explicit / seeded incl. all-negative, few-valued / spikes incl. +-inf, duplicated maxima) x threshold (a cell value, between two values, below min, above max, arbitrary); generic, sse2, avx2, dispatch forced to each arm, StripedScores::{max,argmax,threshold} and Scores::{max,argmax,threshold} compared with a scan of all cells; sweep = one spike at every column x rows {1,2,3,33} x both dtypes x {all-negative, zero} base; non-trivial = rows >= 2 and (maximum outside row 0 / column 0, or every cell negative, or duplicated maximum)"
+        "StripedScores<f32|u8> with 16 or 32 (and, 1 case in 6, 48 or 64) columns built cell by cell, half of them in a buffer that first held 1..80 more rows of the largest value and was resized down, and three in five with a max_index smaller than rows x C (explicit / seeded incl. all-negative, few-valued / spikes incl. +-inf, duplicated maxima; one f32 case in five with every finite cell and the threshold replaced by a subnormal number of the same sign and order), two in five examined right after the same thread scored something else (a sequence shorter than the motif, an empty row range, an ordinary sequence; AVX2, dispatcher, SSE2), x threshold (a cell value, between two values, below min, above max, arbitrary); generic, sse2, avx2, dispatch forced to each arm, StripedScores::{max,argmax,threshold} and Scores::{max,argmax,threshold} compared with a scan of all cells that orders the values by bit pattern (independent of the floating-point control state of the thread); sweep = one spike at every column x rows {1,2,3,33} x both dtypes x {all-negative, zero} base; non-trivial = rows >= 2 and (maximum outside row 0 / column 0, or every cell negative, or duplicated maximum)"
     }
     fn cases(&self, tier: Tier) -> u64 {
         tier.pick(150_000, 5_000_000)
@@ -415,6 +510,8 @@ impl Sub for Synthetic {
                                     prior_rows: 0,
                                     short_by: 0,
                                     wider: 0,
+                                    tiny: false,
+                                    before: 0,
                                 });
                             }
                         }
@@ -434,6 +531,8 @@ impl Sub for Synthetic {
                     prior_rows: 0,
                                     short_by: 0,
                                     wider: 0,
+                    tiny: false,
+                    before: 0,
                 });
             }
         }
@@ -446,6 +545,8 @@ impl Sub for Synthetic {
                 prior_rows: 0,
                                     short_by: 0,
                                     wider: 0,
+                tiny: false,
+                before: 0,
             });
             out.push(SynCase {
                 dtype: Dtype::F32,
@@ -455,6 +556,8 @@ impl Sub for Synthetic {
                 prior_rows: 0,
                                     short_by: 0,
                                     wider: 0,
+                tiny: false,
+                before: 0,
             });
         }
         out
@@ -471,16 +574,29 @@ impl Sub for Synthetic {
                 }
             }
         };
-        let cells = expand_cells(&case.cells, cols);
+        let mut cells = expand_cells(&case.cells, cols);
         let rows = cells.len();
         let mut info = CaseInfo::new();
-        let thr = pick_threshold(&case.thr, &cells, cols);
+        let mut thr = pick_threshold(&case.thr, &cells, cols);
+        let tiny = case.tiny && case.dtype == Dtype::F32;
+        if tiny {
+            for r in cells.iter_mut() {
+                for x in r.iter_mut() {
+                    *x = tiny_of(*x);
+                }
+            }
+            thr = tiny_of(thr);
+        }
+        info.class_if(tiny, "subnormal-cells");
+        info.class_if(case.before != 0, "thread-scored-something-just-before");
+        info.class_if(matches!(case.before, 1 | 2 | 4 | 5), "thread-scored-a-sequence-shorter-than-the-motif-just-before");
         // classification on the f32 view
         let flat: Vec<f32> = cells.iter().flat_map(|r| r.iter().cloned()).collect();
         let mx = flat.iter().cloned().fold(f32::NEG_INFINITY, f32::max);
         let n_max = flat.iter().filter(|&&x| x == mx).count();
         let first_max = flat.iter().position(|&x| x == mx).unwrap_or(0);
         let all_neg = !flat.is_empty() && flat.iter().all(|&x| x < 0.0);
+        do_before(case.before);
         let outcome = match case.dtype {
             Dtype::F32 => {
                 info.class("f32");
